@@ -269,6 +269,7 @@ fn spell_common<T: PT + num_traits::Bounded>(ops: &mut Vec<Op>) {
     nul!(ops, T, "Float::min_value", || <T as Float>::min_value().tb(), || T::c_min().tb());
     nul!(ops, T, "Float::max_value", || <T as Float>::max_value().tb(), || T::c_max().tb());
     nul!(ops, T, "Float::min_positive_value", || <T as Float>::min_positive_value().tb(), || T::c_min_positive().tb());
+    nul!(ops, T, "Float::epsilon", || <T as Float>::epsilon().tb(), || T::c_epsilon().tb());
     nul!(ops, T, "Float::nan", || <T as Float>::nan().tb(), || T::c_nar().tb());
     nul!(ops, T, "Float::infinity", || <T as Float>::infinity().tb(), || T::c_nar().tb());
     nul!(ops, T, "Float::neg_infinity", || <T as Float>::neg_infinity().tb(), || T::c_nar().tb());
@@ -293,6 +294,8 @@ fn spell_common<T: PT + num_traits::Bounded>(ops: &mut Vec<Op>) {
     fconst!(FRAC_PI_8);
     fconst!(LN_10);
     fconst!(LN_2);
+    fconst!(LOG10_2);
+    fconst!(LOG2_10);
     fconst!(LOG10_E);
     fconst!(LOG2_E);
     fconst!(PI);
@@ -454,6 +457,15 @@ fn register_inner(ops: &mut Vec<Op>) {
     float_fwd1!(ops, P16E1, exp, exp2, ln, log2);
     float_fwd1!(ops, P32E2, exp, exp2, ln, log2, cbrt, sin, cos, tan, asin, acos, atan, sinh, cosh, tanh);
     float_fwd2!(ops, P32E2, powf, hypot, atan2);
+    // provided methods of num_traits::Float that the crate does not override although the type has
+    // an inherent method of the same name (P8E0 has none): known finding KF-C17-to-degrees
+    float_fwd1!(ops, P16E1, to_degrees, to_radians);
+    // the provided P16E1 versions call acos, an allow-listed todo!() stub: judged by C17 (one side
+    // panics, the other returns), not part of the C16 catalogue
+    let n = ops.len();
+    ops[n - 1].skip_catalogue = true;
+    ops[n - 2].skip_catalogue = true;
+    float_fwd1!(ops, P32E2, to_degrees, to_radians);
     ops.push(
         Op::new("P32E2::spell::Float::sin_cos vs sin_cos", &["C17"], &[Kind::Pat(crate::val::P32)], OutKind::Raw, |x, _, _| {
             let (s, c) = num_traits::Float::sin_cos(P32E2::from_bits(x as u32));
